@@ -691,11 +691,15 @@ def ob_contact(et, seed):
     nd = ind * nPe
     N = np.asarray(g.Get_N_pg(MatrixType.mass))[:, 0, :]
     nPg = N.shape[0]
-    u0 = _rand_u(rnd, nd, den=10)
     t = c.sym("t")
-    # obstacle offset chosen so that the gap changes sign over the element (mixed active set)
-    xg0 = [[sum(N[p][k] * (co[k][d_] + u0[k * ind + d_]) for k in range(nPe)) for d_ in range(ind)] for p in range(nPg)]
-    proj = sorted(sum(nrm[d_] * xg0[p][d_] for d_ in range(ind)) for p in range(nPg))
+    # obstacle offset chosen so that the gap changes sign over the element (mixed active set); the seeded state is redrawn until the Gauss points
+    # are spread along the obstacle normal by clearly more than the perturbation used for the derivative
+    for _try in range(50):
+        u0 = _rand_u(rnd, nd, den=10)
+        xg0 = [[sum(N[p][k] * (co[k][d_] + u0[k * ind + d_]) for k in range(nPe)) for d_ in range(ind)] for p in range(nPg)]
+        proj = sorted(sum(nrm[d_] * xg0[p][d_] for d_ in range(ind)) for p in range(nPg))
+        if nPg == 1 or float(proj[-1] - proj[0]) > 0.2:
+            break
     g0 = -(proj[0] + proj[-1]) / 2 + F(1, 1000)
     n = 0
     nact = 0
